@@ -188,4 +188,66 @@ C07 = dict(
             'uniformly visited (known findings); floating-point rounding',
 )
 
-SPECS = {'C01': C01, 'C06': C06, 'C07': C07}
+
+# ------------------------------------------------------------------------------------------ C08
+
+def corr_range(b0, b1):
+    s0 = math.sqrt(math.log(b0 * b0 + 1.0)); s1 = math.sqrt(math.log(b1 * b1 + 1.0))
+    be0 = math.sqrt(math.exp(s0 * s0) - 1.0); be1 = math.sqrt(math.exp(s1 * s1) - 1.0)
+    den = be0 * be1
+    return (math.exp(-s0 * s1) - 1.0) / den, (math.exp(s0 * s1) - 1.0) / den
+
+
+def gen_C08(g, tier):
+    cs = []
+    L = 10 if tier == 'quick' else 14
+    import itertools
+    for n in range(0, L + 1):
+        for pat in itertools.product('AB', repeat=n):
+            if n == 0: continue
+            cs.append(Case('o.c08.pairing %s' % ''.join(pat), 'orc', 'pairing-exhaustive', nontrivial=(n > 1)))
+    for _ in range(3 if tier == 'quick' else 30):
+        n = g.randint(1000, 10000)
+        # long random interleavings with long leads of one consumer over the other
+        pat = []
+        while len(pat) < n:
+            pat += [g.choice('AB')] * g.randint(1, 12)
+        cs.append(Case('o.c08.pairing %s' % ''.join(pat[:n]), 'orc', 'pairing-long'))
+    betas = [0.1, 0.3, 0.5, 1.0, 2.0]
+    for b0 in betas:
+        for b1 in betas:
+            lo, hi = corr_range(b0, b1)
+            rhos = [('inside', lo + (hi - lo) * f) for f in (0.1, 0.5, 0.9)] + [('zero', 0.0), ('edge-max', hi), ('edge-min', lo),
+                    ('edge-max-1ulp', math.nextafter(hi, 0.0)), ('edge-min-1ulp', math.nextafter(lo, 0.0)),
+                    ('outside', math.nextafter(hi, 2.0)), ('outside', math.nextafter(lo, -2.0)), ('outside', hi + 0.05), ('outside', lo - 0.05)]
+            if tier == 'quick' and (b0, b1) not in ((0.5, 1.0), (1.0, 1.0), (0.3, 2.0), (2.0, 2.0), (0.1, 0.1)):
+                rhos = [r for r in rhos if r[0].startswith('edge')][:2]
+            for tag, rho in rhos:
+                m = g.randint(1, 6)
+                pat = ''.join(g.choice('AB') for _ in range(m))
+                devs = [f32(g.r.gauss(0, 1)) for _ in range(2 * m)]
+                cs.append(Case('cov.seq %s %s %s' % (hexes([rho, b0, b1]), pat, hexes(devs)), 'cmp', 'sequence-' + tag, check=(None if tag == 'outside' else finite_all)))
+                if tag != 'outside':
+                    cs.append(Case('o.c08.moments %s' % hexes([rho, b0, b1]), 'orc', 'moments-' + tag, check=flags_then_small(1, 1e-5)))
+                else:
+                    cs.append(Case('cov.seq %s %s %s' % (hexes([rho, b0, b1]), 'A', hexes(devs[:2])), 'orc', 'rejected-outside', check=must_reject))
+    return cs
+
+
+def must_reject(vals, line):
+    return None if line.startswith('err throw:bivariate_lognormal_modes::build') else 'a request outside the admissible range was not rejected: ' + line[:80]
+
+
+C08 = dict(
+    id='C08', module='EpsicProofs.Props.C08', gen=gen_C08,
+    rule='pairing: ALL interleavings of the two consumers up to total length 10 (thorough: 14) on the real coordinator with a '
+         'counting draw source, plus random interleavings of length 1000..10000 with leads up to 12; (correlation, index A, '
+         'index B) grid incl. both ends of the admissible interval, one ulp inside and outside; factor sequences compared bit '
+         'for bit with the model at Float; moments of the delivered pairs by 16x16 Gauss-Hermite quadrature through the deviate source',
+    exhaustive=False,
+    trusted=['glibc exp/log/sqrt shared by harness and model', 'Gauss-Hermite quadrature (oracle only)'],
+    assumptions=['bivariate Gaussian law of the two deviates'],
+    partial='floating-point rounding; moments are evaluated by quadrature on the implementation, proved for the exact matrix root',
+)
+
+SPECS = {'C01': C01, 'C06': C06, 'C07': C07, 'C08': C08}
